@@ -105,6 +105,7 @@ def summarise(w, prof_name, seed, props, scenario, wall, sample):
         "cmds": dict(getattr(getattr(w, "shell", None), "cmd_counts", {}) or {}),
         "states": len(getattr(w, "status_states", ()) or ()),
         "n_vprocs": len(w.vprocs),
+        "faults_detail": [(f["kind"], f.get("mode")) for f in getattr(getattr(w, "faults", None), "fired", [])][:4],
     }
     extra = getattr(w, "extra_result", None)
     if extra:
@@ -153,6 +154,56 @@ def _task(args):
                 res = {"profile": prof_name, "seed": seed, "harness": ["".join(traceback.format_exception(e))[-3000:]],
                        "violations": [], "failed": True}
             out.append(res)
+    finally:
+        faulthandler.cancel_dump_traceback_later()
+    return out
+
+
+def _task_sweep(args):
+    """One pilot execution + one run per (sampled) fault site, under both lock behaviours."""
+    import copy
+    import random
+
+    prof_name, seed, props, quick = args
+    from jv import profiles, prof_faults
+    from jv.kernel import Chooser
+
+    faulthandler.dump_traceback_later(TASK_TIMEOUT * 3, exit=True)
+    out = []
+    try:
+        prof = profiles.PROFILES[prof_name]
+        sc0 = prof["gen"](Chooser(f"scen/{seed}"), prof)
+        try:
+            w, pilot = run_case(prof_name, seed, props, scenario=copy.deepcopy(sc0), keep_world=True, sample=True)
+        except Exception as e:  # noqa: BLE001
+            import traceback
+
+            return [{"profile": prof_name, "seed": seed, "harness": ["".join(traceback.format_exception(e))[-3000:]],
+                     "violations": [], "failed": True}]
+        pilot["pilot"] = True
+        counters = dict(w.faults.counters)
+        pilot["fault_sites"] = counters
+        out.append(pilot)
+        rng = random.Random(f"sweep/{seed}")
+        plans = prof_faults.sweep_plans(counters, quick, rng)
+        pilot["sites_run"] = len(plans)
+        for i, site in enumerate(plans):
+            behaviours = ["never_break", "break_stale"]
+            if quick:
+                behaviours = [behaviours[i % 2]]
+            for lb in behaviours:
+                sc = copy.deepcopy(sc0)
+                sc["faults"]["sites"] = [dict(site)]
+                sc["env"]["lock_behaviour"] = lb
+                try:
+                    _, res = run_case(prof_name, seed, props, scenario=sc, sample=(i == 0 and lb == behaviours[0]))
+                except Exception as e:  # noqa: BLE001
+                    import traceback
+
+                    res = {"profile": prof_name, "seed": seed, "harness": ["".join(traceback.format_exception(e))[-3000:]],
+                           "violations": [], "failed": True}
+                res["site"] = dict(site, lock_behaviour=lb)
+                out.append(res)
     finally:
         faulthandler.cancel_dump_traceback_later()
     return out
@@ -299,6 +350,11 @@ def check(prop, tier, workers, runs_override=None, verif_seed=0, max_wall=None):
         for i in range(0, n, chunk):
             tasks.append((prof_name, seeds[i:i + chunk], props, 2 if first else 0))
             first = False
+    sweep_prof = spec.get("sweep")
+    sweep_tasks = []
+    if sweep_prof:
+        for i in range(int(tier_cfg.get("pilots", 0))):
+            sweep_tasks.append((sweep_prof, f"{verif_seed}/{sweep_prof}/{i}", props, tier == "quick"))
     results = []
     harness_msgs = []
     violations = {}  # sig -> first failing case
@@ -306,7 +362,7 @@ def check(prop, tier, workers, runs_override=None, verif_seed=0, max_wall=None):
     pool = make_pool(workers)
     timed_out = False
     try:
-        futs = [pool.submit(_task, t) for t in tasks]
+        futs = [pool.submit(_task_sweep, t) for t in sweep_tasks] + [pool.submit(_task, t) for t in tasks]
         for fut in cf.as_completed(futs):
             try:
                 lst = fut.result()
@@ -415,6 +471,19 @@ def write_evidence(prop, tier, verif_seed, spec, props, results, wall, violation
         vtime += r.get("vtime", 0.0)
         if "sample" in r and len(samples) < 4:
             samples.append(r["sample"])
+    pilots = [r for r in ok if r.get("pilot")]
+    site_runs = [r for r in ok if r.get("site")]
+    sweep_info = None
+    if pilots:
+        tot_sites = collections.Counter()
+        for r in pilots:
+            for k, v in r.get("fault_sites", {}).items():
+                tot_sites[k] += v
+        by_kind = collections.Counter(r["site"]["kind"] for r in site_runs)
+        sweep_info = {"pilot_runs": len(pilots), "fault_sites_in_pilots": dict(tot_sites), "site_runs": len(site_runs),
+                      "site_runs_by_kind": dict(by_kind),
+                      "lock_behaviours": dict(collections.Counter(r["site"]["lock_behaviour"] for r in site_runs)),
+                      "all_sites_of_each_pilot": tier == "thorough"}
     level = profiles.LEVELS.get(prop, "exploration")
     ev = {
         "property_id": prop, "tier": tier, "seed": int(verif_seed), "level": level,
@@ -435,6 +504,7 @@ def write_evidence(prop, tier, verif_seed, spec, props, results, wall, violation
             "commands_served_by_stubs": dict(cmds), "extra_counts": dict(extra_counts),
             "real_components": components.REAL, "stub_components": components.STUBS,
             "jade_tree_digest": tree_digest(), "workers": workers,
+            "kill_point_sweep": sweep_info,
         },
         "assumptions": components.ASSUMPTIONS,
     }
